@@ -108,7 +108,9 @@ Record txplan : Type := mkPlan {
   p_new_head : N;
   p_old_tree : N;                  (* tree of the branch head when the stack was loaded *)
   p_new_tree : N;                  (* tree of the transaction's head *)
-  p_halt : bool                    (* the closure ended in a TransactionHalt *)
+  p_halt : bool;                   (* the closure ended in a TransactionHalt *)
+  p_ext_early : bool               (* undo/redo: log_external_mods runs right after the stack
+                                      is loaded, before the transaction is set up *)
 }.
 
 Record pworld : Type := mkPW {
@@ -145,6 +147,9 @@ Definition in_critical (p : point) : bool :=
   | _ => false
   end.
 
+(* index of the first point that sees the state published by log_external_mods *)
+Definition extmods_index (pl : txplan) : nat := if p_ext_early pl then 1%nat else 3%nat.
+
 Definition extmods_refs (pl : txplan) (r : refs) : refs :=
   match p_extmods pl with Some s => ref_set r RStack s | None => r end.
 
@@ -163,7 +168,7 @@ Definition world_at (pl : txplan) (w0 : pworld) (p : point) : pworld :=
   let idx := point_index p in
   (* PtPushBeforeWtMerge (index 1) is reached before merge-recursive touches the work tree *)
   let wt1 := if Nat.leb 2 idx then closure_wt pl w0 else pw_wt w0 in
-  let r1 := if Nat.leb 3 idx then extmods_refs pl (pw_refs w0) else pw_refs w0 in
+  let r1 := if Nat.leb (extmods_index pl) idx then extmods_refs pl (pw_refs w0) else pw_refs w0 in
   let wt2 := if Nat.leb 5 idx && does_checkout pl then p_new_tree pl else wt1 in
   let r2 := if Nat.leb 10 idx then apply_all (plan_edits pl r1) r1 else r1 in
   mkPW r2 wt2.
